@@ -359,7 +359,7 @@ def install(reg, src):
     def second_ok(sp, g, wj, h):
         return [z3.Implies(sp.reg(g, wj, sp.E, sp.PVX), sp.den(h, sp.E, sp.PVX) == sp.dv(g, wj, sp.E, sp.PVX)), sp.wf(h)]
 
-    @reg.contract(f"{AD}:compute_hessian", props=["C17", "C12"])
+    @reg.contract(f"{AD}:compute_hessian", props=["C17"])
     def _(c):
         ip = c.ip
         sp = Spec(ip)
